@@ -308,3 +308,273 @@ Proof.
   do 3 (split; [eexists; split; [vm_compute; reflexivity|vm_compute; reflexivity]|]).
   split; [vm_compute; reflexivity|]. split; [vm_compute; reflexivity|]. vm_compute; reflexivity.
 Qed.
+
+(* ==================================================================================================
+   Answers to the referee's review of the statements above (design/reviews/C03.md; proofs in
+   Abi/SerWire.v, SerWireProofs.v, Base64Dec.v, SerReferee.v).  Nothing above is changed.
+   ================================================================================================== *)
+From FFS Require Import Base.Keccak Abi.SerWire Abi.SerWireProofs Abi.Base64Dec Abi.SerReferee.
+
+(* --- Issue 1: Go strings that are not valid UTF-8.  [SerModel.wire] (used by theorems 5-9) keeps a
+   Go string verbatim; json.Marshal does that only for valid UTF-8 and writes U+FFFD for every byte at
+   which no valid encoding starts.  [SerWire.wire_go] / [SerializeJSON_go] model that faithfully
+   ([rune_width] = utf8.DecodeRune's table, [json_text] = what a JSON reader gets back; the
+   correspondence run now evaluates THIS entry point, on strings at every edge of UTF-8 validity).
+   Theorems 5-9 therefore speak about the implementation only under the guard stated here. *)
+
+(* 10. json.Marshal's view is the verbatim one on every tree whose strings and keys are valid UTF-8. *)
+Theorem C03_json_marshal_verbatim :
+  forall j : jv, json_utf8 j = true -> wire_go j = wire j.
+Proof. exact wire_go_verbatim. Qed.
+Print Assumptions C03_json_marshal_verbatim.
+
+(* 11. Everything the serializer itself emits (decimal / hex / base64 / EIP-55 renderings, default member
+       names) is ASCII: if the Go strings held by the tree handed to it, and the member names / type labels
+       of its components, are valid UTF-8 ([cval_utf8]; fixed-point values excluded), the faithful entry
+       point and the one used by theorems 5-9 return the same result, in every mode, for every tree. *)
+Theorem C03_serialize_go_same :
+  forall (H : bytes -> bytes) (fs : bfloat -> jv) (s : serializer) (x : cval),
+    cval_utf8 x = true ->
+    SerializeJSON_go H fs NumericDefaultNameGenerator s x = SerializeJSON H fs NumericDefaultNameGenerator s x.
+Proof. exact SerializeJSON_go_same. Qed.
+Print Assumptions C03_serialize_go_same.
+
+(* 12. The guard in terms of the specification value: every value of type string is valid UTF-8
+       ([strings_utf8]) and the names / labels of the component tree are ([names_utf8], always true of a
+       tree parsed from an ABI JSON document). *)
+Theorem C03_utf8_guard_from_value :
+  forall (c : tcomp) (v : val),
+    names_utf8 c = true -> strings_utf8 (ty_of c) v = true -> cval_utf8 (cv_of c v) = true.
+Proof. exact cval_utf8_cv_of. Qed.
+Print Assumptions C03_utf8_guard_from_value.
+
+(* 13. Theorem 5 for the faithful entry point, with the guard. *)
+Theorem C03_serialize_denotes_utf8 :
+  forall (H : bytes -> bytes), (forall x, length (H x) = 32%nat) ->
+  forall (fs : bfloat -> jv) (s : serializer), ts s <> FormatOther ->
+  forall (c : tcomp) (v : val), ser_ok s c = true -> well_typed (ty_of c) v = true ->
+    names_utf8 c = true -> strings_utf8 (ty_of c) v = true ->
+    exists j, SerializeJSON_go H fs NumericDefaultNameGenerator s (cv_of c v) = Ok j /\ denotes H s c v j = true.
+Proof. exact serialize_go_denotes_strings. Qed.
+Print Assumptions C03_serialize_denotes_utf8.
+
+(* 13'. ... with the concrete Keccak-256 (Base/Keccak.v): no hypothesis about the hash. *)
+Theorem C03_serialize_denotes_keccak :
+  forall (fs : bfloat -> jv) (s : serializer), ts s <> FormatOther ->
+  forall (c : tcomp) (v : val), ser_ok s c = true -> well_typed (ty_of c) v = true ->
+    cval_utf8 (cv_of c v) = true ->
+    exists j, SerializeJSON_go keccak256 fs NumericDefaultNameGenerator s (cv_of c v) = Ok j /\
+              denotes keccak256 s c v j = true.
+Proof. exact serialize_go_denotes_keccak. Qed.
+Print Assumptions C03_serialize_denotes_keccak.
+
+(* 14. Theorem 9 for the faithful entry point, with the guard. *)
+Theorem C03_json_roundtrip_utf8 :
+  forall (H : bytes -> bytes), (forall x, length (H x) = 32%nat) ->
+  forall (fs : bfloat -> jv) (s : serializer),
+    ts s = FormatAsFlatArrays \/ ts s = FormatAsObjects ->
+    bs s <> Base64ByteSerializer ->
+  forall (children : list tcomp) (v : val),
+    let c := root_of children in
+    ser_ok s c = true -> widths_ok c = true -> tc_wf c = true -> tc_no_zero_len c = true ->
+    well_typed (ty_of c) v = true -> weight_ok v -> cval_utf8 (cv_of c v) = true ->
+    exists j, SerializeJSON_go H fs NumericDefaultNameGenerator s (cv_of c v) = Ok j /\
+              EncodeABIDataValues EthTypes.Model.BigIntegerFromString children (ext_of j) = Ok (enc (ty_of c) v).
+Proof. exact json_roundtrip_go_c19. Qed.
+Print Assumptions C03_json_roundtrip_utf8.
+
+(* --- Issue 5: clause E literally - from the bytes, through the decoder's output, the serializer, the
+   JSON parser and the encoder, back to the bytes; union of the guards of theorems 2 and 9 + issue 1. *)
+Theorem C03_decode_serialize_parse_encode :
+  forall (H : bytes -> bytes), (forall x, length (H x) = 32%nat) ->
+  forall (fs : bfloat -> jv) (s : serializer),
+    ts s = FormatAsFlatArrays \/ ts s = FormatAsObjects ->
+    bs s <> Base64ByteSerializer ->
+  forall (children : list tcomp) (v : val) (pre post : bytes),
+    let c := root_of children in
+    ser_ok s c = true -> widths_ok c = true -> tc_wf c = true -> tc_no_zero_len c = true ->
+    well_typed (ty_of c) v = true -> weight_ok v ->
+    names_utf8 c = true -> strings_utf8 (ty_of c) v = true ->
+    zlen (enc (ty_of c) v) < 2 ^ 32 -> counts_ok v = true ->
+    exists x j, DecodeABIData c (pre ++ enc (ty_of c) v ++ post) (zlen pre) = Ok x /\
+                SerializeJSON_go H fs NumericDefaultNameGenerator s x = Ok j /\
+                EncodeABIDataValues EthTypes.Model.BigIntegerFromString children (ext_of j) = Ok (enc (ty_of c) v).
+Proof. exact decode_serialize_parse_encode_strings. Qed.
+Print Assumptions C03_decode_serialize_parse_encode.
+
+(* 15'. In the implication form: whatever tree the decoder returned and whatever document the serializer
+        wrote for it, parsing and encoding that document gives back the specification encoding. *)
+Theorem C03_decode_serialize_parse_encode_any :
+  forall (H : bytes -> bytes), (forall x, length (H x) = 32%nat) ->
+  forall (fs : bfloat -> jv) (s : serializer),
+    ts s = FormatAsFlatArrays \/ ts s = FormatAsObjects ->
+    bs s <> Base64ByteSerializer ->
+  forall (children : list tcomp) (v : val) (pre post : bytes),
+    let c := root_of children in
+    ser_ok s c = true -> widths_ok c = true -> tc_wf c = true -> tc_no_zero_len c = true ->
+    well_typed (ty_of c) v = true -> weight_ok v -> cval_utf8 (cv_of c v) = true ->
+    zlen (enc (ty_of c) v) < 2 ^ 32 -> counts_ok v = true ->
+    forall x j, DecodeABIData c (pre ++ enc (ty_of c) v ++ post) (zlen pre) = Ok x ->
+                SerializeJSON_go H fs NumericDefaultNameGenerator s x = Ok j ->
+                EncodeABIDataValues EthTypes.Model.BigIntegerFromString children (ext_of j) = Ok (enc (ty_of c) v).
+Proof. exact decode_serialize_parse_encode_any. Qed.
+Print Assumptions C03_decode_serialize_parse_encode_any.
+
+(* 15''. With the concrete Keccak-256: the only things left abstract are [fs] (fixed-point rendering, not
+         reachable: no fixed-point type) and encoding/json's read-back [ext_of]. *)
+Theorem C03_decode_serialize_parse_encode_keccak :
+  forall (fs : bfloat -> jv) (s : serializer),
+    ts s = FormatAsFlatArrays \/ ts s = FormatAsObjects ->
+    bs s <> Base64ByteSerializer ->
+  forall (children : list tcomp) (v : val) (pre post : bytes),
+    let c := root_of children in
+    ser_ok s c = true -> widths_ok c = true -> tc_wf c = true -> tc_no_zero_len c = true ->
+    well_typed (ty_of c) v = true -> weight_ok v -> cval_utf8 (cv_of c v) = true ->
+    zlen (enc (ty_of c) v) < 2 ^ 32 -> counts_ok v = true ->
+    exists x j, DecodeABIData c (pre ++ enc (ty_of c) v ++ post) (zlen pre) = Ok x /\
+                SerializeJSON_go keccak256 fs NumericDefaultNameGenerator s x = Ok j /\
+                EncodeABIDataValues EthTypes.Model.BigIntegerFromString children (ext_of j) = Ok (enc (ty_of c) v).
+Proof. exact decode_serialize_parse_encode_keccak. Qed.
+Print Assumptions C03_decode_serialize_parse_encode_keccak.
+
+(* 16. (issue 1, refutation) Without the guard the two serializer clauses are FALSE of the faithful
+       model (and of the Go code: known finding C03/string-invalid-utf8, run by the harness every time):
+       type (string), value the byte ff satisfies every hypothesis of theorems 5 and 9, json.Marshal
+       writes U+FFFD, the document does not denote the value and parsing it back encodes other bytes -
+       in every formatting mode and with every integer / byte / address serializer. *)
+Theorem C03_invalid_utf8_refuted :
+  forall (H : bytes -> bytes) (fs : bfloat -> jv) (s : serializer), ts s <> FormatOther ->
+    let c := root_of bad_children in
+    ser_ok s c = true /\ widths_ok c = true /\ tc_wf c = true /\ tc_no_zero_len c = true /\
+    well_typed (ty_of c) bad_value = true /\ cval_utf8 (cv_of c bad_value) = false /\
+    exists j, SerializeJSON_go H fs NumericDefaultNameGenerator s (cv_of c bad_value) = Ok j /\
+              denotes H s c bad_value j = false /\
+              EncodeABIDataValues EthTypes.Model.BigIntegerFromString bad_children (ext_of j) <> Ok (enc (ty_of c) bad_value).
+Proof. exact invalid_utf8_refuted. Qed.
+Print Assumptions C03_invalid_utf8_refuted.
+
+(* --- Issue 2: the object-mode guard [names_distinct] inside [ser_ok] is a narrowing of the property
+   (declared in props/C03.json).  17. Refutation without it: for (uint256 a, uint256 a) and for
+   (uint8 "1", uint8 <unnamed, index 1>) every other part of [ser_ok] holds, the Go map assignment
+   overwrites, the document has ONE entry and does not denote the value (1, 2). *)
+Theorem C03_object_collision_refuted :
+  forall (H : bytes -> bytes) (fs : bfloat -> jv),
+    collision_facts H fs dup_tuple (VList [VNum 1; VNum 2]) (JObj [([x61], JStr [x32])]) /\
+    collision_facts H fs idx_tuple (VList [VNum 1; VNum 2]) (JObj [([x31], JStr [x32])]).
+Proof. exact object_collision_refuted. Qed.
+Print Assumptions C03_object_collision_refuted.
+
+(* --- Issue 4: clause F ("numbers only when exactly representable") is proved for number-if-fits
+   (theorem 6).  18. JSONNumberIntSerializer emits a number token for EVERY integer, 2^256-1 included
+   (json.Number of arbitrary size): by design that serializer does not satisfy the clause. *)
+Theorem C03_json_number_always_number :
+  forall H fs dn (s : serializer) l e su m n k (i : Z),
+    is_ s = JSONNumberIntSerializer -> (e = EInt \/ e = EUInt) ->
+    SerializeJSON H fs dn s (CV (Some (TCElem e su m n k)) l (GBigInt i)) = Ok (JNumber (Z_dec i)) /\
+    SerializeJSON_go H fs dn s (CV (Some (TCElem e su m n k)) l (GBigInt i)) = Ok (JNumber (Z_dec i)).
+Proof. exact json_number_serialized. Qed.
+Print Assumptions C03_json_number_always_number.
+
+(* --- Issue 3: base64.  [denotes] compares a base64 leaf with [Render.base64] itself.  19. An
+   independent RFC 4648 reader (Abi/Base64Dec.v: strict, canonical, shares no code with the encoder;
+   RFC section 10 vectors as Examples there) reads every encoder output back; hence 20. a bytes /
+   function leaf that [denotes] accepts in base64 mode, and 21. an address leaf under the nil address
+   serializer, are read by that decoder as the value's bytes. *)
+Theorem C03_base64_read_back :
+  forall b : bytes, base64_decode (base64 b) = Some b.
+Proof. exact base64_decode_encode. Qed.
+Print Assumptions C03_base64_read_back.
+
+Theorem C03_base64_leaf_decodes :
+  forall (b : bytes) (j : jv),
+    denotes_bytes Base64ByteSerializer b j = true -> exists t, j = JStr t /\ base64_decode t = Some b.
+Proof. exact denotes_bytes_base64_decodes. Qed.
+Print Assumptions C03_base64_leaf_decodes.
+
+Theorem C03_base64_address_decodes :
+  forall (H : bytes -> bytes) (s : serializer) (z : Z) (j : jv),
+    ad s = None -> bs s = Base64ByteSerializer -> denotes_addr H s z j = true ->
+    exists t a, j = JStr t /\ base64_decode t = Some a /\ is_addr_of z a = true.
+Proof. exact denotes_addr_base64_decodes. Qed.
+Print Assumptions C03_base64_address_decodes.
+
+(* 22. ... and conversely (Abi/Base64DecInj.v: the strict decoder accepts only the canonical text): for
+       bytes / function leaves the base64 case of the denotation IS the independent reader - a leaf is
+       accepted exactly when the RFC 4648 decoder reads it as the value's bytes. *)
+From FFS Require Import Abi.Base64DecInj.
+Theorem C03_base64_leaf_iff :
+  forall (b : bytes) (j : jv),
+    denotes_bytes Base64ByteSerializer b j = true <-> exists t, j = JStr t /\ base64_decode t = Some b.
+Proof. exact denotes_bytes_base64_iff. Qed.
+Print Assumptions C03_base64_leaf_iff.
+
+Theorem C03_base64_decoder_canonical :
+  forall t b : bytes, base64_decode t = Some b <-> t = base64 b.
+Proof. exact base64_decode_iff. Qed.
+Print Assumptions C03_base64_decoder_canonical.
+
+(* ---------------- non-vacuity of the additions ---------------- *)
+(* the UTF-8 guard: true for 1- to 4-byte encodings at the range ends (U+0080, U+07FF, U+0800, U+D7FF,
+   U+E000, U+FFFD, U+10000, U+10FFFF), false for ff, a truncated sequence, an overlong form, a surrogate,
+   a code point above U+10FFFF; what a JSON reader gets back in those cases *)
+Example C03_utf8_guard_nonvacuous :
+  let st := TCElem EString [] 0 0 [x73] in
+  let c := TCTuple [st; TCDynArr st []] [] in
+  let good := [xc2; x80; xdf; xbf; xe0; xa0; x80; xed; x9f; xbf; xee; x80; x80; xef; xbf; xbd;
+               xf0; x90; x80; x80; xf4; x8f; xbf; xbf; x41] in
+  names_utf8 c = true /\
+  strings_utf8 (ty_of c) (VList [VBytes good; VList [VBytes []; VBytes good]]) = true /\
+  cval_utf8 (cv_of c (VList [VBytes good; VList [VBytes []; VBytes good]])) = true /\
+  strings_utf8 (ty_of c) (VList [VBytes good; VList [VBytes [xff]]]) = false /\
+  forallb (fun b => negb (utf8_ok b))
+          [[xff]; [xc3]; [xe2; x82]; [xc0; xaf]; [xed; xa0; x80]; [xf4; x90; x80; x80]; [xf0; x9f; x98]; [x80]] = true /\
+  json_text good = good /\
+  json_text [x61; xff; x62] = [x61; xef; xbf; xbd; x62] /\
+  json_text [xed; xa0; x80] = [xef; xbf; xbd; xef; xbf; xbd; xef; xbf; xbd] /\
+  json_text [xe2; x82; x41] = [xef; xbf; xbd; xef; xbf; xbd; x41].
+Proof. vm_compute. repeat split; reflexivity. Qed.
+
+(* theorems 13-15 in the self-describing and the flat-array mode (the referee's "cheap addition"), with
+   the concrete Keccak-256, a checksum address, a non-ASCII string, base64 bytes; and the whole chain
+   bytes -> decode -> serialize -> parse -> encode -> bytes evaluated on an instance of theorem 15 *)
+Example C03_serialize_modes_nonvacuous :
+  let sd := {| ts := FormatAsSelfDescribingArrays; is_ := NumberIfFitsOrBase10StringIntSerializer;
+               bs := Base64ByteSerializer; ad := Some ChecksumAddrSerializer |} in
+  let fl := {| ts := FormatAsFlatArrays; is_ := JSONNumberIntSerializer;
+               bs := HexByteSerializer0xPrefix; ad := None |} in
+  let children := [TCElem EUInt [x32; x35; x36] 256 0 [x61]; TCElem EAddress [] 160 0 [];
+                   TCDynArr (TCElem EString [] 0 0 []) [x73];
+                   TCTuple [TCElem EBytes [] 0 0 [x62]; TCElem EBool [] 8 0 []] [x74]] in
+  let c := root_of children in
+  let v := VList [VNum (2 ^ 256 - 1); VNum 0x5aaeb6053f3e94c9b9a09f33669435e7ef1beaed;
+                  VList [VBytes [x63; x61; x66; xc3; xa9]; VBytes []];
+                  VList [VBytes [x66; x6f; x6f; x62]; VNum 1]] in
+  ser_ok sd c = true /\ ser_ok fl c = true /\ widths_ok c = true /\ tc_wf c = true /\ tc_no_zero_len c = true /\
+  well_typed (ty_of c) v = true /\ names_utf8 c = true /\ strings_utf8 (ty_of c) v = true /\
+  zlen (enc (ty_of c) v) < 2 ^ 32 /\ counts_ok v = true /\
+  (exists j, SerializeJSON_go keccak256 (fun _ => JNull) NumericDefaultNameGenerator sd (cv_of c v) = Ok j /\
+             denotes keccak256 sd c v j = true) /\
+  (exists x j, DecodeABIData c ([x01; x02; x03; x04] ++ enc (ty_of c) v ++ [xff]) 4 = Ok x /\
+               SerializeJSON_go keccak256 (fun _ => JNull) NumericDefaultNameGenerator fl x = Ok j /\
+               denotes keccak256 fl c v j = true /\
+               EncodeABIDataValues EthTypes.Model.BigIntegerFromString children (ext_of j) = Ok (enc (ty_of c) v)).
+Proof.
+  cbv zeta. do 8 (split; [vm_compute; reflexivity|]). split; [vm_compute; reflexivity|]. split; [vm_compute; reflexivity|].
+  split; [eexists; split; [vm_compute; reflexivity|vm_compute; reflexivity]|].
+  eexists; eexists. split; [vm_compute; reflexivity|]. split; [vm_compute; reflexivity|].
+  split; [vm_compute; reflexivity|vm_compute; reflexivity].
+Qed.
+
+(* theorem 18: 2^256-1 leaves JSONNumberIntSerializer as a 78-digit number token although it is not
+   exactly representable (number-if-fits writes it as a string); theorem 20 on a serialized leaf *)
+Example C03_number_and_base64_nonvacuous :
+  let s := {| ts := FormatAsFlatArrays; is_ := JSONNumberIntSerializer; bs := Base64ByteSerializer; ad := None |} in
+  let u := TCElem EUInt [x32; x35; x36] 256 0 [] in
+  SerializeJSON_go keccak256 (fun _ => JNull) NumericDefaultNameGenerator s (CV (Some u) [] (GBigInt (2 ^ 256 - 1)))
+    = Ok (JNumber (Z_dec (2 ^ 256 - 1))) /\
+  length (Z_dec (2 ^ 256 - 1)) = 78%nat /\ (Z.abs (2 ^ 256 - 1) <=? 2 ^ 53 - 1) = false /\
+  SerializeJSON_go keccak256 (fun _ => JNull) NumericDefaultNameGenerator s
+    (CV (Some (TCElem EBytes [] 0 0 [])) [] (GBytes [x66; x6f; x6f; x62; x61])) = Ok (JStr [x5a; x6d; x39; x76; x59; x6d; x45; x3d]) /\
+  base64_decode [x5a; x6d; x39; x76; x59; x6d; x45; x3d] = Some [x66; x6f; x6f; x62; x61] /\
+  base64_decode [x5a; x6d; x39; x76; x59; x6d; x46; x3d] = None.
+Proof. vm_compute. repeat split; reflexivity. Qed.
